@@ -935,3 +935,39 @@ def visit_table_model(rep, R, facts):
                               f'visit_table for an {label} writes header {head or "none"} (expected {want or "none"}) and {rows} row(s) (expected {nrows}, after the header): '
                               + ('the rows are printed under the previous header, so they land in another table' if rows and not head and not at_root else
                                  'a table appears, vanishes or loses values in the printed text'), facts.loc(b))
+
+
+
+def presized_from_hint(rep, R, facts):
+    """no container is pre-sized from an access object's `size_hint()`: the number is whatever the other side claims (serde documents it as untrusted and offers
+    `size_hint::cautious`); `with_capacity(hint)` aborts or panics on a large claim — and, for toml::Map, only where the map type allocates eagerly (IndexMap under preserve_order)"""
+    from .core import walk, peel, callee_all, last_seg
+    n = 0
+    for d, b in sorted(facts.bodies.items()):
+        if not d.split('::')[0].lstrip('<') in ('toml', 'toml_edit', 'toml_datetime', 'serde_spanned', 'toml_write'):
+            continue
+        origins = None
+        for c in walk(b['body']):
+            if c.get('k') not in ('call', 'mcall'):
+                continue
+            from .core import strip_generics
+            nm = c.get('name') if c.get('k') == 'mcall' else last_seg(strip_generics(peel(c.get('f', {})).get('path') or ''))
+            if nm not in ('with_capacity', 'reserve', 'reserve_exact', 'with_capacity_and_hasher'):
+                continue
+            n += 1
+            if origins is None:
+                origins = local_origins(b['body'])
+
+            def tainted(node, depth=0):
+                for x in walk(node):
+                    if x.get('k') == 'mcall' and x.get('name') == 'size_hint':
+                        return True
+                    if x.get('k') == 'path' and x.get('res') == 'Local' and x.get('path') in origins and depth < 4 and tainted(origins[x['path']], depth + 1):
+                        return True
+                return False
+            bounded = lambda node: any(x.get('k') in ('mcall', 'call') and ((x.get('name') or '') in ('min', 'cautious', 'clamp') or last_seg(peel(x.get('f', {})).get('path') or '') in ('min', 'cautious')) for x in walk(node))
+            args = c.get('args', [])
+            if any(tainted(a) and not bounded(a) for a in args):
+                rep.bad(R, f'{d}|{nm}', f'`{d}` sizes a container with `{nm}` from a `size_hint()`: the hint is an untrusted claim of the data source (a huge one aborts with "capacity overflow"; '
+                        f'for toml::Map only under preserve_order, where the map allocates eagerly)', facts.loc(b, c))
+    rep.check(R, 'pre-sizing calls', True, f'{n} with_capacity / reserve calls, none sized by a size_hint', '')
